@@ -383,7 +383,10 @@ class Explorer:
         self.trace_cls = type('FilteredTrace', (Trace,), {'keep': staticmethod(keep), '__slots__': ()}) if keep is not None else Trace
         self.kill_dead = kill_dead
         import time as _t
-        self.deadline = _t.time() + time_budget
+        # wall-clock budgets are a safety net only (the step budget is the deterministic bound): scaled so that a loaded machine
+        # cannot turn a decidable instance into an 'undecidable' one
+        import os as _os
+        self.deadline = _t.time() + time_budget * float(_os.environ.get('DFVERIF_TIME_SCALE', '5'))
         self.memo = {}
         self.cut = False
 
